@@ -737,4 +737,67 @@ theorem readResponse_wire_framed (meth : Bytes) (m : Msg) (h : WFRes meth m)
       congr 1
       · cases m; simp_all
 
+/-- The wire form `wire m` itself (one chunk when chunked). -/
+theorem readResponse_wire (meth : Bytes) (m : Msg) (h : WFRes meth m) (rest : Bytes)
+    (hrest : lengthDelimited m = false → rest = []) :
+    readResponse meth (wire m ++ rest) = .complete (resParsed m) rest := by
+  have := readResponse_wire_framed meth m h (if (m.body.getD []).isEmpty then [] else [m.body.getD []])
+    (by split <;> simp_all) (by intro c hc; split at hc <;> simp_all) rest hrest
+  cases hch : isChunked m.te with
+  | false => simpa [hch] using this
+  | true => rw [wire_chunked m hch]; simpa [hch] using this
+
+/-- Responses on a kept-alive upstream connection (each length-delimited, none announcing close):
+recovered one by one, in order, each matched to its request's method, nothing left over. -/
+theorem readResponses_keptalive (xs : List (Bytes × Msg))
+    (h : ∀ x ∈ xs, WFRes x.1 x.2 ∧ lengthDelimited x.2 = true ∧ (resParsed x.2).close = false) :
+    readResponses (xs.map (·.1)) (xs.flatMap fun x => wire x.2) = ⟨xs.map fun x => resParsed x.2, none⟩ := by
+  induction xs with
+  | nil => simp [readResponses]
+  | cons x r ih =>
+    obtain ⟨hw, hl, hc⟩ := h x (by simp)
+    simp only [List.map_cons, List.flatMap_cons]
+    unfold readResponses
+    rw [readResponse_wire x.1 x.2 hw _ (by intro hf; rw [hl] at hf; cases hf)]
+    simp only [hc, Bool.false_eq_true, if_false]
+    rw [ih (fun y hy => h y (by simp [hy]))]
+
+/-! ### what the re-read header list is -/
+
+/-- Every end-to-end field keeps its values, with multiplicity and in order. -/
+theorem vals_e2e (m : Msg) (k : Bytes) (hk : (exclOf m).contains k = false) : vals (e2e m) k = vals m.hdr k := by
+  rw [← vals_sortKV m.hdr k]
+  simp only [e2e, vals, List.filter_filter]
+  congr 1
+  apply List.filter_congr
+  intro kv _
+  cases hq : kv.1 == k with
+  | false => simp
+  | true =>
+    have : kv.1 = k := by simpa using hq
+    simp only [this, Bool.and_true, Bool.not_eq_true']
+    simpa using hk
+
+theorem vals_clF_ne (m : Msg) (k : Bytes) (hk : (clKey == k) = false) : vals (clF m) k = [] := by
+  unfold clF; split <;> simp [vals_cons, hk]
+
+theorem vals_parsedHdr (m : Msg) (k : Bytes) (hk : (exclOf m).contains k = false) (hcl : (clKey == k) = false) :
+    vals (parsedHdr m) k = vals m.hdr k := by
+  rw [parsedHdr, vals_sortKV, vals_append, vals_clF_ne m k hcl, vals_e2e m k hk]; rfl
+
+theorem vals_resHdr (m : Msg) (k : Bytes) (hk : (exclOf m).contains k = false) (hcl : (clKey == k) = false)
+    (hconn : (connKey == k) = false) : vals (resHdr m) k = vals m.hdr k := by
+  rw [resHdr, vals_sortKV]
+  split
+  · rw [vals_del_ne _ _ _ hconn, vals_append, vals_clF_ne m k hcl, vals_e2e m k hk]; rfl
+  · rw [vals_append, vals_clF_ne m k hcl, vals_e2e m k hk]; rfl
+
+/-- A message already in the reader's normal form (header list sorted, carrying its own
+`Content-Length` field) re-parses to itself, field for field. -/
+theorem reqParsed_msg_of_normal (m : Msg) (h : parsedHdr m = m.hdr) : (reqParsed m).msg = m := by
+  cases m; simp_all [reqParsed]
+
+theorem resParsed_msg_of_normal (m : Msg) (h : resHdr m = m.hdr) : (resParsed m).msg = m := by
+  cases m; simp_all [resParsed]
+
 end Martian.Http1
